@@ -255,6 +255,12 @@ impl<'a> MessageView<'a> {
 
     /// Returns the value at `index`, if any.
     pub fn get_value(&self, index: usize) -> Option<&[u8]> {
+        // The offsets array has `max(len, 1) - 1` entries, so it cannot
+        // tell an empty message from a message with one pair.
+        if index >= self.len() {
+            return None;
+        }
+
         let header = 8 * self.len();
 
         let offsets = self.offsets();
